@@ -274,13 +274,21 @@ func checkCopyMovePaths(srcPath, dstPath string) error {
 	if srcPath == dstPath {
 		return NewHTTPError(http.StatusForbidden, fmt.Errorf("webdav: source and destination are the same resource"))
 	}
-	sep := string(filepath.Separator)
-	srcDir := strings.TrimSuffix(srcPath, sep) + sep
-	dstDir := strings.TrimSuffix(dstPath, sep) + sep
-	if strings.HasPrefix(dstPath, srcDir) || strings.HasPrefix(srcPath, dstDir) {
+	if isBelow(srcPath, dstPath) || isBelow(dstPath, srcPath) {
 		return NewHTTPError(http.StatusForbidden, fmt.Errorf("webdav: source and destination contain one another"))
 	}
 	return nil
+}
+
+// isBelow checks whether p lies below the directory dir. Comparing the paths
+// as strings doesn't work when the served directory is ".": its members are
+// then named "a", not "./a".
+func isBelow(dir, p string) bool {
+	rel, err := filepath.Rel(dir, p)
+	if err != nil {
+		return false
+	}
+	return rel != "." && rel != ".." && !strings.HasPrefix(rel, ".."+string(filepath.Separator))
 }
 
 // checkParentExists returns a "409 Conflict" error if the parent of a resource
